@@ -94,7 +94,9 @@ pub fn gen_c01(r: &mut Rng, id: usize, thorough: bool) -> Group {
         return g;
     }
     let o = GenOpts { astral: false, max_depth: if r.chance(10) { 6 } else { 3 }, ..Default::default() };
-    let n = if thorough && r.chance(5) { r.range(100, 400) } else { r.range(1, 12) };
+    // long streams dense in EMPTY containers, top-level and nested (state a reader carries from value to value — a nesting
+    // counter, a reused buffer — shows only after hundreds of them); in the quick tier too
+    let n = if r.chance(if thorough { 5 } else { 2 }) { r.range(100, 600) } else { r.range(1, 12) };
     let many_empty = n >= 100;
     let vals: Vec<V> = (0..n)
         .map(|_| {
@@ -117,6 +119,9 @@ pub fn gen_c01(r: &mut Rng, id: usize, thorough: bool) -> Group {
     let mut g = Group::new(vec![c]);
     g.nontrivial = vals.len() >= 2 && noncanon;
     g.labels.push(format!("values:{}", bucket(vals.len())));
+    if many_empty {
+        g.labels.push("kind:many-empty-containers".into());
+    }
     g.values = vals;
     g
 }
